@@ -298,7 +298,7 @@ func (fr *frame) applyContract(ct *Contract, callee *ssa.Function, sig *types.Si
 		if !e.tagActive(cl.Tags) {
 			continue
 		}
-		g, err := ctx.trBool(cl.Expr)
+		g, err := ctx.goal(cl.Expr)
 		if err != nil {
 			vc.warn("contract %s requires %q: %v", ct.Key, cl.Text, err)
 			fr.oblige("pre", "", fmt.Sprintf("%s#%d", anchor, i), st, "false", "untranslatable: "+cl.Text, cl.Tags)
@@ -314,6 +314,9 @@ func (fr *frame) applyContract(ct *Contract, callee *ssa.Function, sig *types.Si
 		}
 	} else if callee != nil && len(callee.Blocks) > 0 {
 		ms := e.ms.funcMods(callee)
+		if ms.all || ms.heapAll || len(ms.keys) > 0 {
+			fr.frameHavoc(st, "callee "+ct.Key+" has no modifies clause")
+		}
 		fr.applyMods(st, ms, "call "+ct.Key)
 	} else {
 		fr.havocEverything(st, false, ct.Key)
@@ -359,6 +362,7 @@ func cloneTermMap(m map[string]Term) map[string]Term {
 func (fr *frame) applyModSpec(m ModSpec, ctx *specCtx, st *State) {
 	vc := fr.vc()
 	switch m.Kind {
+	case "fresh":
 	case "all":
 		fr.havocEverything(st, false, "modifies all")
 	case "heap":
@@ -369,6 +373,7 @@ func (fr *frame) applyModSpec(m ModSpec, ctx *specCtx, st *State) {
 			vc.warn("modifies: unknown ghost %s", m.Name)
 			return
 		}
+		fr.frameGhostWhole(vc.keyGhost(g), st)
 		vc.bump(st, vc.keyGhost(g))
 	case "ghostat":
 		g := fr.enc.db.Ghosts[m.Name]
@@ -383,6 +388,7 @@ func (fr *frame) applyModSpec(m ModSpec, ctx *specCtx, st *State) {
 			return
 		}
 		key := vc.keyGhost(g)
+		fr.frameGhostAt(key, k.S, st)
 		fv := vc.freshConst("gh."+m.Name, g.Val)
 		vc.set(st, key, fmt.Sprintf("(store %s %s %s)", vc.cur(st, key), k.S, fv.S))
 	case "field":
@@ -411,6 +417,7 @@ func (fr *frame) applyModSpec(m ModSpec, ctx *specCtx, st *State) {
 					return
 				}
 				key := vc.keyField(t, f.Name(), sortOf(f.Type()))
+				fr.frameWrite(key, obj.S, st)
 				fv := vc.freshConst("fld."+f.Name(), sortOf(f.Type()))
 				fr.assumeTypeGuarded(fv, f.Type(), st)
 				vc.set(st, key, fmt.Sprintf("(store %s %s %s)", vc.cur(st, key), obj.S, fv.S))
@@ -426,6 +433,7 @@ func (fr *frame) applyModSpec(m ModSpec, ctx *specCtx, st *State) {
 			return
 		}
 		for _, c := range fr.cellsOf(obj.Term, deref(obj.ty)) {
+			fr.frameWrite(c.key, c.idx, st)
 			fv := vc.freshConst("fld", vc.kinds[c.key].Val)
 			vc.set(st, c.key, fmt.Sprintf("(store %s %s %s)", vc.cur(st, c.key), c.idx, fv.S))
 		}
@@ -444,6 +452,7 @@ func (fr *frame) applyModSpec(m ModSpec, ctx *specCtx, st *State) {
 			return
 		}
 		key := vc.keyCell(et)
+		fr.frameWrite(key, obj.S, st)
 		fv := vc.freshConst("cell", sortOf(et))
 		fr.assumeTypeGuarded(fv, et, st)
 		vc.set(st, key, fmt.Sprintf("(store %s %s %s)", vc.cur(st, key), obj.S, fv.S))
@@ -454,6 +463,7 @@ func (fr *frame) applyModSpec(m ModSpec, ctx *specCtx, st *State) {
 			return
 		}
 		bm := vc.keyBM()
+		fr.frameWrite(bm, fmt.Sprintf("(sl_base %s)", obj.S), st)
 		fv := vc.freshConst("bytes", SV)
 		vc.set(st, bm, fmt.Sprintf("(store %s (sl_base %s) %s)", vc.cur(st, bm), obj.S, fv.S))
 	case "map":
@@ -467,6 +477,7 @@ func (fr *frame) applyModSpec(m ModSpec, ctx *specCtx, st *State) {
 			return
 		}
 		dom, val := vc.keyMap(mt)
+		fr.frameWrite(dom, obj.S, st)
 		for _, k := range []string{dom, val} {
 			kk := vc.kinds[k]
 			fv := vc.fresh("mapc")
@@ -607,6 +618,7 @@ func (fr *frame) builtin(v ssa.Value, b *ssa.Builtin, c *ssa.CallCommon, st *Sta
 		k := arg(1)
 		mt := c.Args[0].Type().Underlying().(*types.Map)
 		dom, _ := vc.keyMap(mt)
+		fr.frameWrite(dom, m.S, st)
 		vc.set(st, dom, fmt.Sprintf("(store %s %s (store (select %s %s) %s false))", vc.cur(st, dom), m.S, vc.cur(st, dom), m.S, k.S))
 	case "close", "print", "println":
 	case "panic":
@@ -684,4 +696,35 @@ func (fr *frame) chanEvent(ch ssa.Value, x ssa.Value, st *State) {
 	}
 	key := fr.vc().keyGhost(g)
 	fr.vc().set(st, key, fmt.Sprintf("(+ %s 1)", fr.vc().cur(st, key)))
+}
+
+func (fr *frame) frameGhostWhole(key string, st *State) {
+	e := fr.enc
+	if !e.frameCheck {
+		return
+	}
+	for _, d := range e.declMods {
+		if (d.key == key || d.key == "*") && d.idx == "" {
+			return
+		}
+	}
+	fr.oblige("frame", "", fr.nextAnchor("ghost"), st, "false", "ghost state "+key+" is modified but not listed in modifies", nil)
+}
+
+func (fr *frame) frameGhostAt(key, idx string, st *State) {
+	e := fr.enc
+	if !e.frameCheck {
+		return
+	}
+	var alts []string
+	for _, d := range e.declMods {
+		if d.key != key && d.key != "*" {
+			continue
+		}
+		if d.idx == "" {
+			return
+		}
+		alts = append(alts, eq(idx, d.idx))
+	}
+	fr.oblige("frame", "", fr.nextAnchor("ghost"), st, or(alts...), "ghost state "+key+" is modified at a key not listed in modifies", nil)
 }
